@@ -544,6 +544,25 @@ theorem translate_inverse (r : Region) (hr : r.Inv) (v w : List Rat) (b b' : Boo
   obtain ⟨e1, e2⟩ := translate_compose r hr v w b b' x1 r1 x2 r2 h1 h2 a ha
   rw [e1, e2, hw]; constructor <;> ring
 
+/-- a factor 1 on an axis leaves that axis' corners where they are, a factor −1 mirrors them about
+the reference point (wherever it lies), in either form -/
+theorem scale_unit_factors (r : Region) (hr : r.Inv) (f : Factor) (ref : Option (List Rat)) (b : Bool)
+    (recv ret : Region) (h : scaleR r f ref b = .ok (recv, ret)) (a : Nat) (ha : a < r.ndim) :
+    (f.at a = 1 → ret.lo a = r.lo a ∧ ret.hi a = r.hi a) ∧
+    (f.at a = -1 → ret.lo a = 2 * (ref.getD r.center).getD a 0 - r.hi a ∧
+                   ret.hi a = 2 * (ref.getD r.center).getD a 0 - r.lo a) := by
+  obtain ⟨h1, h2⟩ := scale_affine r hr f ref b recv ret h a ha
+  have hlt : r.lo a < r.hi a := hr.2.2.2.2.2 a ha
+  constructor
+  · intro hf
+    rw [hf] at h1 h2
+    rw [h1, h2, min_eq_left (by linarith), max_eq_right (by linarith)]
+    constructor <;> ring
+  · intro hf
+    rw [hf] at h1 h2
+    rw [h1, h2, min_eq_right (by linarith), max_eq_left (by linarith)]
+    constructor <;> ring
+
 /-- a zero factor on any axis is rejected by both forms -/
 theorem zero_factor_rejected (r : Region) (f : Factor) (ref : Option (List Rat)) (a : Nat) (ha : a < r.ndim)
     (hz : f.at a = 0) : (∃ e, scaleR r f ref true = .error e) ∧ (∃ e, scaleR r f ref false = .error e) := by
